@@ -1617,6 +1617,21 @@ impl Gen {
             fixed.push(format!("month_from_str {}", hex_of(s)));
             fixed.push(format!("weekday_from_str {}", hex_of(s)));
         }
+        // every name and abbreviation with something appended or prepended (short and long: an implementation that
+        // looks at a bounded prefix, or trims, accepts these)
+        for n in MONTHS.iter().chain(DAYS.iter()) {
+            let short: String = n.chars().take(3).collect();
+            for base in [n.to_string(), short] {
+                for suffix in ["s", " ", "day", ", 3 May 2023", "\n"] {
+                    let t = format!("{base}{suffix}");
+                    fixed.push(format!("month_from_str {}", hex_of(&t)));
+                    fixed.push(format!("weekday_from_str {}", hex_of(&t)));
+                }
+                let t = format!(" {base}");
+                fixed.push(format!("month_from_str {}", hex_of(&t)));
+                fixed.push(format!("weekday_from_str {}", hex_of(&t)));
+            }
+        }
         for l in fixed {
             if self.em.n >= budget {
                 break;
